@@ -696,3 +696,45 @@ def stores_of(ctx, t):
                 rec(y, depth + 1)
     rec(t)
     return out
+
+
+# ============================================================================ role-based statement lookup
+def simple_assigns(v, stmts=None):
+    """[(stmt, target name, value term)] for `name = value` statements (names are reported, never matched)"""
+    out = []
+    for st in (stmts if stmts is not None else v.stmts()):
+        if isinstance(st, ast.Assign) and len(st.targets) == 1 and isinstance(st.targets[0], ast.Name):
+            out.append((st, st.targets[0].id, v.term(st.value, at=st)))
+    return out
+
+
+def find_assign(v, pred, stmts=None):
+    """first `name = value` whose value term satisfies pred(term, stmt) -> (stmt, name, term) or None"""
+    for st, name, t in simple_assigns(v, stmts):
+        try:
+            if pred(t, st):
+                return st, name, t
+        except AnalysisError:
+            continue
+    return None
+
+
+def find_assigns(v, pred, stmts=None):
+    out = []
+    for st, name, t in simple_assigns(v, stmts):
+        try:
+            if pred(t, st):
+                out.append((st, name, t))
+        except AnalysisError:
+            continue
+    return out
+
+
+def local_term(v, name, at):
+    """term of local variable `name` at statement `at` (name obtained from the source, e.g. from find_assign)"""
+    return v.ev.term(ast.Name(id=name, ctx=ast.Load()), at=at)
+
+
+def call_name(v, t):
+    c = decode_call(v.ctx, t)
+    return c[0] if c else None
